@@ -110,6 +110,11 @@ func runC14(r *Report) {
 	c14R6(r)
 	c14R7(r)
 	pieceSizeProducts64(r, "R8")
+	// the store's side of "lands where it belongs": AddData's per-block copy (C01.R8 re-evaluated) — the web-seed writer
+	// is the only caller that hands it several blocks at once
+	if c := newPieceCtx(r, "R9"); c.ok {
+		c.r8("R9")
+	}
 }
 
 func c14R1(r *Report) {
